@@ -22,12 +22,13 @@ NOTES = ['every shape R x C <= 6x6 (1xN, Nx1, 3x4 and 4x3, primes included), eve
          'neighbourhood type and/or radius on the same or a one-cell-changed grid',
          'compared in Coq per call: the returned array (values and shape) of each mode against the model of that mode; '
          'oracle in Python: memoized array == unmemoized array, both from the implementation']
-ASSUMPTIONS = ['rules are pure and read only the unmasked cells (Lin2 of harness/twins.py); memoized modes with rules that '
+ASSUMPTIONS = ['rules are pure and read only the unmasked cells (Lin2 and the affine Aff2 of harness/twins.py; about a '
+               'third of the pure rules are affine with b != 0, so that the all-zero neighbourhood does not map to 0); memoized modes with rules that '
                'depend on c or t are outside the property',
                'rule results and initial states are representable in the dtype of the automaton (store = identity)',
                'radii outside 0..min(R,C) are outside the property (every mode raises IndexError at the first gather)',
                'exception classes are not compared: any exception on both sides agrees']
-TRUSTED = ['Python twins Lin2 / LinCT2 / PredLt / PredScript in harness/twins.py; the option spellings table in c04.py']
+TRUSTED = ['Python twins Lin2 / Aff2 / LinCT2 / PredLt / PredScript in harness/twins.py; the option spellings table in c04.py']
 
 # the ways the option is spelled: (python value factory, Coq PyVal term)
 OPTIONS = {
@@ -77,12 +78,20 @@ def _grid(rng, R, C, style, k):
 STYLES = ['sparse', 'rowstripes', 'colstripes', 'checker', 'random', 'zero']
 
 
-def _lin(rng, r, k, fam='lin'):
+def _lin(rng, r, k, fam='lin', p_aff=1.0 / 3):
+    """a pure rule of the Lin2 family, or (about a third of the time; more often on sparse grids) of the AFFINE family
+    (sum(w*x) + b) mod m with b != 0 mod m: it maps the all-zero neighbourhood to b, not to 0, so an engine that
+    leaves all-zero blocks untouched (relying on the zero-initialised next_state) is visible"""
     w = (2 * r + 1) ** 2
     ws = [rng.randint(0, 2) for _ in range(w)]
     if rng.random() < 0.3:
         ws = [1] * w                                   # totalistic: many equal neighbourhood sums
+    if fam == 'lin' and rng.random() < p_aff:
+        return {'fam': 'aff', 'ws': ws, 'b': rng.randint(1, k - 1), 'm': k}
     return {'fam': fam, 'ws': ws, 'm': k}
+
+
+PURE = ('lin', 'aff')
 
 
 def _ts(rng, form=None):
@@ -103,7 +112,7 @@ def _call(R, C, r, ty, hist, rule, memo, ts, dtype='int64'):
 def _triple(rng, R, C, r, ty, style, k, ts, H=1, dtype='int64'):
     """the same input under memoize=False, True, 'recursive'"""
     hist = [_grid(rng, R, C, 'random', k) for _ in range(H - 1)] + [_grid(rng, R, C, style, k)]
-    rule = _lin(rng, r, k)
+    rule = _lin(rng, r, k, p_aff=0.6 if style in ('sparse', 'zero') else 0.25)
     return [_call(R, C, r, ty, hist, rule, m, ts, dtype) for m in MODES3]
 
 
@@ -172,6 +181,8 @@ def generate(rng, tier):
             ws = [rng.randint(0, 2) for _ in range(w)]
             ws[0], ws[1] = 1, 2                      # never uniform: Moore and von Neumann results differ
             rule = {'fam': 'lin', 'ws': ws, 'm': k}
+            if rng.random() < 1.0 / 3:
+                rule = {'fam': 'aff', 'ws': ws, 'b': rng.randint(1, k - 1), 'm': k}
             memo = rng.choice(['true', 'rec_lit', 'rec_join', None])      # None: mixed modes
             calls = []
             cur_ty, cur_r, cur_g = ty, r, g
@@ -205,7 +216,7 @@ def generate(rng, tier):
                 calls.append(_call(C, R, r2, ty, [gt], _lin(rng, r2, k), rng.choice(MEMOIZED), _ts(rng)))
             elif which < 0.7:     # same rule as the previous call, another dtype
                 prev = calls[-1] if calls else _call(R, C, r, ty, [g], _lin(rng, r, k), 'true', _ts(rng))
-                rule = prev['rule'] if prev['rule']['fam'] == 'lin' else _lin(rng, prev['r'], k)
+                rule = prev['rule'] if prev['rule']['fam'] in PURE else _lin(rng, prev['r'], k)
                 calls.append(dict(prev, rule=rule, dtype=rng.choice(['int32', 'uint8', 'int64']), memo=rng.choice(MEMOIZED)))
             elif which < 0.85:    # another state of the same shape, unmemoized rule that reads c and t
                 g2 = _grid(rng, R, C, rng.choice(STYLES), k)
